@@ -225,6 +225,12 @@ def handle (op : String) (args : List String) : Option String :=
           pure (boolStr (m == n && (orig.zip got).all fun (s, t) =>
             (splatTo s).map (fun x => (E.of32 (E.to32 x)).toBits) == (splatTo t).map Float.toBits))
       | _ => none
+  | "c15.holds.write_after_failure", [lim, total, failed, afterOk, hexBefore, hexAfter] => do
+      -- a Write into a destination that fails after `lim` of `total` bytes, then an ordinary Write of the SAME cloud that
+      -- was written before the failure: the failing write reports an error iff lim < total, the next one succeeds and its
+      -- bytes are those written before (Write is a function of the cloud: `Splat.write` has no state)
+      let lim ← nat? lim; let total ← nat? total
+      pure (boolStr ((failed == "true") == (lim < total) && afterOk == "true" && hexBefore == hexAfter))
   | "c15.holds.readers_agree", _fmt :: rest => (readersAgree rest).map boolStr
   | "c15.holds.splatply_rest", n :: cnt :: rest => do
       -- PLY splat export of the higher-order harmonics: EVERY f_rest_k (k < cnt) of the cloud must come back,
